@@ -169,7 +169,7 @@ def run(pid, tier, deadline_s):
     cov = {"evaluations": evals, "distinct_nontrivial": nontriv, "rule": RULES[pid],
            "samples": samples[:16] or ["(no sample lines captured)"],
            "functions": len(per_fn), "per_function_evaluations": {k: v[0] for k, v in sorted(per_fn.items())},
-           "outcome_classes_max_per_worker": outcomes, "bound": {"N": 8 if tier == "thorough" else 5},
+           "outcome_classes_max_per_worker": outcomes, "bound": {"N": 14 if tier == "thorough" else 5},
            "variants": VARIANTS[pid], "tasks": len(tasks), "tasks_timed_out": len(timed_out)}
     assumptions = ["kernel page protection delivers a fault for every access to a guard page",
                    "the catalogue row (signature roles, attributes) of each function is transcribed correctly from its doc comment",
